@@ -68,31 +68,64 @@ Definition first_draw_holds (rows : list (list spx)) (impl : list N) : bool :=
          picture_eq (sixel_src100 rows) p)
     end.
 
+(* ---------- cropped views ---------- *)
+
+Definition spx_eqb (a b : spx) : bool :=
+  match a, b with
+  | Opaque c, Opaque d => rgb_eqb c d
+  | Transp c x bl, Transp d y bm => rgb_eqb c d && (x =? y) && rgb_eqb bl bm
+  | _, _ => false
+  end.
+
+Definition rows_eqb : list (list spx) -> list (list spx) -> bool := list_eqb (list_eqb spx_eqb).
+
+(* specification side: what was written for a picture of the same content before *)
+Fixpoint drawn_before (rows : list (list spx)) (seen : list (list (list spx) * list N)) : option (list N) :=
+  match seen with
+  | [] => None
+  | (r, b) :: rest => if rows_eqb r rows then Some b else drawn_before rows rest
+  end.
+
 Fixpoint cache_get (k : nat) (c : list (nat * list N)) : option (list N) :=
   match c with
   | [] => None
   | (k2, v) :: r => if Nat.eqb k k2 then Some v else cache_get k r
   end.
 
+(* one handler; model side: first draws of an image (by number) are encoded, repeated
+   draws come from the cache; specification side: EVERY draw must decode to the view it
+   was given, and a draw of a view whose content was drawn before must repeat those bytes *)
 Fixpoint run_draws (imgs : list (list (list spx))) (cache : list (nat * list N))
+         (seen : list (list (list spx) * list N))
          (draws : list (nat * list N)) : bool * bool :=
   match draws with
   | [] => (true, true)
   | (k, impl) :: r =>
-      let '(a, h) :=
+      let rows := nth k imgs [] in
+      let a :=
         match cache_get k cache with
-        | Some bytes => (nlist_eqb bytes impl, nlist_eqb bytes impl)
-        | None =>
-            let rows := nth k imgs [] in
-            (first_draw_agrees rows impl, first_draw_holds rows impl)
+        | Some bytes => nlist_eqb bytes impl
+        | None => first_draw_agrees rows impl
         end in
-      let '(a', h') := run_draws imgs ((k, impl) :: cache) r in
+      let h :=
+        first_draw_holds rows impl &&
+        match drawn_before rows seen with
+        | Some bytes => nlist_eqb bytes impl
+        | None => true
+        end in
+      let '(a', h') := run_draws imgs ((k, impl) :: cache) ((rows, impl) :: seen) r in
       (a && a', h && h')
   end.
 
-Inductive c12_case := SIX (imgs : list (list (list spx))) (draws : list (nat * list N)).
+Inductive c12_case :=
+  SIX (parents : list (list (list spx)))
+      (imgs : list (nat * option (nat * nat * nat * nat)))      (* parent number, crop *)
+      (draws : list (nat * list N)).
 
 Definition c12_check (c : c12_case) : bool * bool :=
-  match c with SIX imgs draws => run_draws imgs [] draws end.
+  match c with
+  | SIX parents imgs draws =>
+      run_draws (map (fun i => view_rows (nth (fst i) parents []) (snd i)) imgs) [] [] draws
+  end.
 
 Definition c12_report := report c12_check.
